@@ -440,11 +440,11 @@ func (m *machine) runStep(idx int, s step) (stop bool) {
 		if s.From != 0 {
 			data = m.written[s.From]
 		}
-		plan := readerPlan{Cut: -1}
+		plan := readerPlan{}
 		if s.Reader != nil {
 			plan = *s.Reader
 		}
-		m.streams[s.Stream] = newScriptedReader(data, plan, s.Reader != nil)
+		m.streams[s.Stream] = newScriptedReader(data, plan)
 		m.spos[s.Stream] = data
 		fate := "eof"
 		if plan.Fate == "err" {
